@@ -11,7 +11,7 @@ def run(ctx):
     for be in backends:
         lib = build.build_lib(be)
         ctx.configs.append(lib["desc"])
-        exe = build.build_prog("c03", ["harness/c03.c", "ref/ref.c"], lib)
+        exe = build.build_prog("c03", ["harness/c03.c", "harness/cpp_shim.cpp", "ref/ref.c"], lib)
         main = be == "asm"
         for a in (0, 1):
             for mode in ("plain", "fixed", "cxof"):
